@@ -55,6 +55,20 @@ def cond_of(models):
         return float("inf")
 
 
+def cond_of_fresh(models):
+    """conditioning of the system of the CURRENT points, computed on a copy so that the object's cache is not touched"""
+    import copy
+    from cobyqa.models import build_system
+    I2 = copy.copy(models.interpolation)
+    I2._xpt = np.copy(models.interpolation.xpt)
+    I2._lhs_cache = None
+    a, _, _ = build_system(I2)
+    try:
+        return float(np.linalg.cond(a))
+    except np.linalg.LinAlgError:
+        return float("inf")
+
+
 def frs(a):
     return [Fr(float(v)) for v in np.asarray(a, float).ravel()]
 
